@@ -1,16 +1,19 @@
-import PwVerif.Model.Remote
+import PwVerif.Model.RemoteRoutes
+import PwVerif.Model.ExecHandles
 import PwVerif.Model.Proto
 open PwVerif.Remote PwVerif.Proto
 
 /-!
 Line protocol of the C10 model driver.
 
-    cfg <keepIO> <dropDetached> <keepKidExe>        (0/1 each)
+    cfg <keepIO> <dropDetached> <keepKidExe> <lockAtReceiver>     (0/1 each)
     fails <fid> ...
     fn <fid> <exe> <lnk> <n> <v1..vn> <r1..rn>      push a leaf: values, then per slot `-` or the sibling position
     comp <kind> <exe> <lnk> <nkids> <n> <v1..vn> <r1..rn> <l1..ln>   pops <nkids>; links `-` or `j.s`
     top                                             the node on the stack becomes the (parentless) top node
     run | submit <snap> | complete | set <k> <v> | fetch | connect <k> <v> | disconnect <k> | rerun | setkid <j> <k> <v> | dump
+    submitat <path> <snap> | completeat <path> | setat <path> <k> <v>      path: r | j.k...
+    pcfg <shutdownBuilt> <settleRefused> | pools <live|down>... | psubmit <node> inst <h>|fresh|shared <h>|freshdown | pcomplete <i>
 
 Values: dot-separated tokens, `-` = NOT_DATA.  exe: n | is | iv | xs | xv.  kind: macro | for | wf.
 Every op answers `res <token>`, the dump of the whole graph, `end`.
@@ -18,12 +21,35 @@ Every op answers `res <token>`, the dump of the whole graph, `end`.
 
 structure DSt where
   cfg : Cfg
+  atRecv : Bool
   fails : List Nat
   stack : List Node
   sess : Option Sess
   tainted : Bool
+  jobsAt : List (String × Job)
+  pcfg : PwVerif.ExecH.Cfg
+  pst : PwVerif.ExecH.St
 
-def DSt.init : DSt := { cfg := Cfg.pinned, fails := [], stack := [], sess := none, tainted := false }
+def DSt.init : DSt :=
+  { cfg := Cfg.pinned, atRecv := true, fails := [], stack := [], sess := none, tainted := false, jobsAt := [],
+    pcfg := PwVerif.ExecH.Cfg.pinned, pst := PwVerif.ExecH.St.init [] }
+
+def parsePath (w : String) : Option (List Nat) :=
+  if w == "r" then some [] else (w.splitOn ".").mapM String.toNat?
+
+def showPS : PwVerif.ExecH.PS → String
+  | .live => "live"
+  | .down => "down"
+
+def showPRes : PwVerif.ExecH.Res → String
+  | .future => "future" | .refused => "refused" | .notReady => "notReady" | .ok => "ok" | .noJob => "noJob"
+
+def parseSetting : List String → Option PwVerif.ExecH.Setting
+  | ["inst", h] => h.toNat?.map .inst
+  | ["fresh"] => some (.instr .fresh)
+  | ["shared", h] => h.toNat?.map fun h => .instr (.shared h)
+  | ["freshdown"] => some (.instr .freshDown)
+  | _ => none
 
 def parseVal (w : String) : Option Val :=
   if w == "-" then some [] else (w.splitOn ".").mapM String.toNat?
@@ -96,6 +122,11 @@ def showLink (gens : List Nat) : Option Ref → String
 
 def joinOr (l : List String) : String := if l.isEmpty then "." else ",".intercalate l
 
+def pstateLine (s : PwVerif.ExecH.St) (nodes : Nat) : String :=
+  let flags := (List.range nodes).map fun n => s!"{n}:{b01 (s.running n)}{b01 (s.failed n)}{s.runs n}"
+  s!"pstate pools={joinOr (s.pools.map showPS)} nodes={joinOr flags} jobs={s.jobs.length}"
+
+
 mutual
 def dumpNode (path : String) (gens : List Nat) : Node → List String
   | .fn o fid =>
@@ -144,7 +175,7 @@ def runTop (cfg : Cfg) (fails : Nat → Bool) (s : Sess) : Sess × Res :=
   let n1 := fetchTop s.ext s.node.own.ins.length s.node
   if !ready n1 then ({ s with node := n1 }, .readiness)
   else
-    let r := run cfg fails (.honour false) n1.own.ins n1
+    let r := run cfg fails (.honour false) n1.own.ins [] n1
     ({ s with node := r }, if r.own.failed then .raised else .ok)
 
 def reply (st : DSt) (s : Sess) (r : Res) : DSt × List String :=
@@ -161,10 +192,65 @@ def onSess (st : DSt) (heavy : Bool) (f : Sess → Sess × Res) : DSt × List St
 def step (st : DSt) (ws : List String) : DSt × List String :=
   let failsF := fun fid => st.fails.contains fid
   match ws with
-  | ["cfg", a, b, c] =>
-    match parseBool a, parseBool b, parseBool c with
-    | some a, some b, some c => ({ st with cfg := { keepIO := a, dropDetached := b, keepKidExe := c } }, [])
-    | _, _, _ => (st, ["bad-op"])
+  | ["cfg", a, b, c, d] =>
+    match parseBool a, parseBool b, parseBool c, parseBool d with
+    | some a, some b, some c, some d =>
+      ({ st with cfg := { keepIO := a, dropDetached := b, keepKidExe := c }, atRecv := d }, [])
+    | _, _, _, _ => (st, ["bad-op"])
+  | ["pcfg", a, b] =>
+    match parseBool a, parseBool b with
+    | some a, some b => ({ st with pcfg := { shutdownBuilt := a, settleRefused := b } }, [])
+    | _, _ => (st, ["bad-op"])
+  | "pools" :: ws =>
+    match ws.mapM (fun w => if w == "live" then some PwVerif.ExecH.PS.live else if w == "down" then some .down else none) with
+    | some ps => ({ st with pst := PwVerif.ExecH.St.init ps }, [pstateLine (PwVerif.ExecH.St.init ps) 3])
+    | none => (st, ["bad-op"])
+  | "psubmit" :: node :: rest =>
+    match node.toNat?, parseSetting rest with
+    | some node, some set =>
+      let (s', r) := PwVerif.ExecH.step st.pcfg st.pst (.submit node set)
+      ({ st with pst := s' }, [s!"pres {showPRes r}", pstateLine s' 3])
+    | _, _ => (st, ["bad-op"])
+  | ["pcomplete", i] =>
+    match i.toNat? with
+    | some i =>
+      let (s', r) := PwVerif.ExecH.step st.pcfg st.pst (.complete i)
+      ({ st with pst := s' }, [s!"pres {showPRes r}", pstateLine s' 3])
+    | none => (st, ["bad-op"])
+  | ["submitat", path, b] =>
+    match parsePath path, parseBool b with
+    | some pth, some b =>
+      match st.sess with
+      | none => (st, ["bad-op"])
+      | some s =>
+        if st.tainted then (st, ["res unmodelled", "end"]) else
+        match submitAt b pth s.node with
+        | some (r, job) =>
+          let (st', out) := reply st { s with node := r } .future
+          ({ st' with jobsAt := (path, job) :: st.jobsAt }, out)
+        | none => reply st s .readiness
+    | _, _ => (st, ["bad-op"])
+  | ["completeat", path] =>
+    match parsePath path, st.sess with
+    | some pth, some s =>
+      if st.tainted then (st, ["res unmodelled", "end"]) else
+      match st.jobsAt.find? (·.1 == path) with
+      | none => reply st s .notOut
+      | some (_, job) =>
+        match finishAt st.cfg failsF job pth s.node with
+        | some r =>
+          let (st', out) := reply st { s with node := r } .ok
+          ({ st' with jobsAt := st.jobsAt.filter (·.1 != path) }, out)
+        | none => reply st s .notOut
+    | _, _ => (st, ["bad-op"])
+  | ["setat", path, k, v] =>
+    match parsePath path, k.toNat?, parseVal v, st.sess with
+    | some pth, some k, some v, some s =>
+      if st.tainted then (st, ["res unmodelled", "end"]) else
+      match assignAt st.atRecv k v pth s.node with
+      | some r => reply st { s with node := r } .ok
+      | none => reply st s .locked
+    | _, _, _, _ => (st, ["bad-op"])
   | "fails" :: fs =>
     match nats fs with
     | some l => ({ st with fails := l }, [])
@@ -203,7 +289,10 @@ def step (st : DSt) (ws : List String) : DSt × List String :=
   | ["complete"] => onSess st true (complete st.cfg failsF)
   | ["set", k, v] =>
     match k.toNat?, parseVal v with
-    | some k, some v => onSess st true fun s => edit s (.setIn k v)
+    | some k, some v => onSess st true fun s =>
+        match assignAt st.atRecv k v [] s.node with
+        | some r => ({ s with node := r }, .ok)
+        | none => (s, .locked)
     | _, _ => (st, ["bad-op"])
   | ["setkid", j, k, v] =>
     match j.toNat?, k.toNat?, parseVal v with
